@@ -1,0 +1,12 @@
+//go:build verif
+
+package graphite
+
+import "github.com/atlassian/gostatsd/pkg/backends/sender"
+
+// SetConnFactory replaces the function the client's sender uses to connect.
+// It must be called before Run and before the first SendMetricsAsync.
+// It is compiled only with the "verif" build tag, for the external verification harness.
+func (client *Client) SetConnFactory(f sender.ConnFactory) {
+	client.sender.ConnFactory = f
+}
